@@ -14,5 +14,6 @@ CONSTANTS
   GiveUp = TRUE
   PreCheckClosed = TRUE
   NilPacketSock = TRUE
+  CloseWaits = TRUE
 INVARIANTS DumpInv
 CHECK_DEADLOCK FALSE
